@@ -53,6 +53,8 @@ class World(object):
     """fresh protocol + everything observed so far"""
 
     def __init__(self, variant, tid0, units):
+        self.allow_kept = variant.endswith('+kept')
+        variant = variant.replace('+kept', '')
         self.variant, self.units = variant, units
         # another connection of the same application, made first and left in the middle of a reply: its receive
         # state is its own
@@ -84,6 +86,7 @@ class World(object):
         self.delivered = set()
         self.connected = True
         self.closed_locally = False
+        self.kept = None
         self.partial = None
         self.partial_used = False
         self.last_tail = None
@@ -105,7 +108,19 @@ class World(object):
             rec = dict(unit=unit, addr=0x10 + i, events=[], wire_tid=None, after_loss=not self.connected)
             self.reqs.append(rec)
             n0 = len(self.tr.writes)
-            d = self.p.read_holding_registers(rec['addr'], 1, unit=unit)
+            if len(ev) > 1 and ev[1] == 'object':
+                # the application builds the request object itself and keeps it (to submit it again later)
+                from pymodbus.register_read_message import ReadHoldingRegistersRequest
+                self.kept = ReadHoldingRegistersRequest(rec['addr'], 1, unit=unit)
+                rec['kept'] = True
+                d = self.p.execute(self.kept)
+            elif len(ev) > 1 and ev[1] == 'again':
+                rec['addr'] = self.kept.address
+                rec['unit'] = self.kept.unit_id
+                rec['again'] = True
+                d = self.p.execute(self.kept)
+            else:
+                d = self.p.read_holding_registers(rec['addr'], 1, unit=unit)
             retry = len(ev) > 1 and ev[1] == 'retry'
             rec['retry'] = retry
             if len(self.tr.writes) > n0:
@@ -163,7 +178,7 @@ class World(object):
         tm = self.p.transaction
         pend = tuple(sorted(tm.transactions)) if isinstance(tm.transactions, dict) else len(tm.transactions)
         return (self.connected, self.closed_locally, self.partial is not None, self.partial_used, self.p._connected, tm.tid, pend,
-                tuple((r['wire_tid'], tuple(r['events']), r['after_loss'], i in self.delivered, r.get('retry', False)) for i, r in enumerate(self.reqs)),
+                tuple((r['wire_tid'], tuple(r['events']), r['after_loss'], i in self.delivered, r.get('retry', False), r.get('kept', False), r.get('again', False)) for i, r in enumerate(self.reqs)),
                 bytes(self.p.framer._buffer), len(self.escaped))
 
 
@@ -174,6 +189,10 @@ def menu(w, max_out, max_req):
         ev.append(('req',))
         if w.connected and not any(r.get('retry') for r in w.reqs):
             ev.append(('req', 'retry'))
+        if w.connected and w.allow_kept and w.kept is None:
+            ev.append(('req', 'object'))
+        if w.connected and w.allow_kept and w.kept is not None and not any(r.get('again') for r in w.reqs):
+            ev.append(('req', 'again'))
     if w.connected and w.partial is not None:
         ev.append(('tail',))
         ev.append(('lose',))
@@ -205,7 +224,7 @@ def menu(w, max_out, max_req):
 
 
 def check(acc, w, hist, cfgname, units_class):
-    wit = dict(variant=w.variant, tid0=hist_tid0[0], units=list(w.units), history=[list(e) for e in hist])
+    wit = dict(variant=w.variant + ('+kept' if w.allow_kept else ''), tid0=hist_tid0[0], units=list(w.units), history=[list(e) for e in hist])
     last = hist[-1][0] if hist else 'init'
 
     def bad(what, msg):
@@ -281,6 +300,8 @@ def run(tier, seed):
         shards.append(('tcp', tid0, (1, 2), max_out, depth))
         shards.append(('rtu', tid0, (1,), max_out, depth))
     shards.append(('tcp-default', 0, (1,), max_out, depth))
+    shards.append(('tcp+kept', 0, (1, 2), 3, 7 if tier == 'quick' else 9))      # the application keeps a request object and submits it twice
+    shards.append(('rtu+kept', 0, (1,), 3, 7 if tier == 'quick' else 9))
     acc = par.run_shards(shard, shards)
     he = None if acc.n.get('states', 0) > 200 else 'vacuous: too few states'
     return dict(acc=acc, level=LEVEL, harness_error=he,
